@@ -248,6 +248,12 @@ func (db *MultiBucketBackend) getBucketWithArbitraryPrefixLocked(bucket string, 
 }
 
 func (db *MultiBucketBackend) CreateBucket(name string) error {
+	// A bucket is a directory directly below the buckets root; names such as
+	// "." or ".." would alias the root or escape it.
+	if err := gofakes3.ValidateBucketName(name); err != nil {
+		return err
+	}
+
 	db.lock.Lock()
 	defer db.lock.Unlock()
 
@@ -329,6 +335,11 @@ func (db *MultiBucketBackend) ForceDeleteBucket(name string) error {
 }
 
 func (db *MultiBucketBackend) BucketExists(name string) (exists bool, err error) {
+	// "." and ".." exist as directories but are not buckets:
+	if err := gofakes3.ValidateBucketName(name); err != nil {
+		return false, nil
+	}
+
 	db.lock.Lock()
 	defer db.lock.Unlock()
 	exists, err = afero.Exists(db.bucketFs, name)
@@ -336,6 +347,10 @@ func (db *MultiBucketBackend) BucketExists(name string) (exists bool, err error)
 }
 
 func (db *MultiBucketBackend) HeadObject(bucketName, objectName string) (*gofakes3.Object, error) {
+	if !cleanKeyPath(objectName) {
+		return nil, gofakes3.KeyNotFound(objectName)
+	}
+
 	db.lock.Lock()
 	defer db.lock.Unlock()
 
@@ -375,6 +390,10 @@ func (db *MultiBucketBackend) HeadObject(bucketName, objectName string) (*gofake
 }
 
 func (db *MultiBucketBackend) GetObject(bucketName, objectName string, rangeRequest *gofakes3.ObjectRangeRequest) (obj *gofakes3.Object, rerr error) {
+	if !cleanKeyPath(objectName) {
+		return nil, gofakes3.KeyNotFound(objectName)
+	}
+
 	db.lock.Lock()
 	defer db.lock.Unlock()
 
@@ -443,6 +462,10 @@ func (db *MultiBucketBackend) PutObject(
 	meta map[string]string,
 	input io.Reader, size int64,
 ) (result gofakes3.PutObjectResult, err error) {
+
+	if !cleanKeyPath(objectName) {
+		return result, errUnsupportedKey(objectName)
+	}
 
 	// Read and validate the whole body (declared size, and Content-MD5 through
 	// the hashing reader) before the destination is touched: the file is
@@ -548,6 +571,12 @@ func (db *MultiBucketBackend) DeleteObject(bucketName, objectName string) (resul
 }
 
 func (db *MultiBucketBackend) deleteObjectLocked(bucketName, objectName string) error {
+	// Such a key cannot have been stored, and path.Join would resolve it to some
+	// other file or directory (even another bucket's):
+	if !cleanKeyPath(objectName) {
+		return nil
+	}
+
 	fullPath := path.Join(bucketName, objectName)
 
 	// S3 does not report an error when attemping to delete a key that does not exist, so
